@@ -49,6 +49,7 @@ var detOnce sync.Once
 
 func registerDetTypes(env *zygo.Zlisp) {
 	detOnce.Do(func() {
+		zygo.RegisterDemoStructs() // as cmd/zygo -demo does, once per process
 		zygo.GoStructRegistry.RegisterUserdef(&zygo.RegisteredType{GenDefMap: true, Factory: func(env *zygo.Zlisp, h *zygo.SexpHash) (interface{}, error) {
 			return &DetTwin{}, nil
 		}}, true, "dettwin", "DetTwin")
@@ -117,8 +118,15 @@ func pollute(i int) {
 		"(gensym)\n(gensym \"zz\")\n(def h (hash z: 1 y: 2 x: 3))\n(str h)\n",
 		fmt.Sprintf("(def q%d (package \"pq%d\" { A := 1 }))\n", i, i),
 		"(defn polf [a b] (+ a b))\n(polf 1 2)\n(msgpack (hash a: 1))\n",
+		"(def pilotType (* snoopy))\n(def s (snoopy cry: \"x\"))\n(def ps (& s))\n",
+		"(def ho (hornet nickname: \"b\"))\n(togo ho)\n(def pw (* weather))\n",
 	}
-	quiet(func() { evalSafe(env, progs[i%len(progs)]) })
+	quiet(func() {
+		// every polluter, in an order that varies with i
+		for j := range progs {
+			evalSafe(env, progs[(i+j*3)%len(progs)])
+		}
+	})
 }
 
 var determFixed = []string{
@@ -133,6 +141,9 @@ var determFixed = []string{
 	"(def s (snoopy chld: (hellcat speed: 567)))\n(togo s)\n(str s)\n",
 	"(struct DetA [(field X: int64) (field Y: string) (field Z: float64)])\n(def a (DetA X: 1 Y: \"y\" Z: 2.5))\n(str a)\n(json a)\n(str (unjson (json a)))\n",
 	"(symnum (quote car))\n",
+	"(symnum (quote brandNewSymbolNeverSeen))\n",
+	"(str (gensym))\n",
+	"(def pt (* snoopy))\n(str pt)\n",
 	"(symnum (quote +))\n",
 	"(defn f [a] a)\n(str f)\n",
 	"(str (fn [x y] (+ x y)))\n",
